@@ -226,5 +226,20 @@ func URIParamsEq(
 	if err2 != ErrHdrOk && err2 != ErrHdrEOH {
 		return false, err2
 	}
+	// more parameters than the temporary lists hold: comparing only the
+	// ones that fit would depend on the parameter order => parse again
+	// into lists that are big enough (rare, allocates)
+	if plst1.More() {
+		n := plst1.N
+		plst1 = URIParamsLst{}
+		plst1.Init(make([]URIParam, n))
+		ParseAllURIParams(buf1, offs1, &plst1, flags)
+	}
+	if plst2.More() {
+		n := plst2.N
+		plst2 = URIParamsLst{}
+		plst2.Init(make([]URIParam, n))
+		ParseAllURIParams(buf2, offs2, &plst2, flags)
+	}
 	return URIParamsLstEq(&plst1, buf1, &plst2, buf2), ErrHdrOk
 }
